@@ -93,12 +93,14 @@ func (a *Allocation) GetPermission(addr net.Addr) *Permission {
 func (a *Allocation) AddPermission(perms *Permission) {
 	fingerprint := ipnet.FingerprintAddr(perms.Addr)
 
-	a.permissionsLock.RLock()
-	existedPermission, ok := a.permissions[fingerprint]
-	a.permissionsLock.RUnlock()
-
-	if ok {
+	// Lookup, refresh and insert are one critical section: the expiry of a
+	// permission decides under the same lock, so a refresh that is answered
+	// with success is never followed by the expiry it came just in time for.
+	perms.allocation = a
+	a.permissionsLock.Lock()
+	if existedPermission, ok := a.permissions[fingerprint]; ok {
 		existedPermission.refresh(perms.timeout)
+		a.permissionsLock.Unlock()
 
 		return
 	}
@@ -106,8 +108,6 @@ func (a *Allocation) AddPermission(perms *Permission) {
 	// Arm the lifetime timer before the permission becomes visible: Close and
 	// the allocation's expiry stop the timers of every listed permission, also
 	// while the OnPermissionCreated callback below is still running.
-	perms.allocation = a
-	a.permissionsLock.Lock()
 	// An allocation that has ended takes nothing new: the request was looked
 	// up before (a user callback may have taken its time since), and Close,
 	// which removes what is listed, has run or is running.
@@ -151,6 +151,27 @@ func (a *Allocation) RemovePermission(addr net.Addr) {
 	}
 }
 
+// expirePermission removes a permission whose lifetime timer has fired,
+// unless it has been removed, replaced or refreshed in the meantime.
+func (a *Allocation) expirePermission(perm *Permission) {
+	a.permissionsLock.Lock()
+	defer a.permissionsLock.Unlock()
+
+	fingerprint := ipnet.FingerprintAddr(perm.Addr)
+	if a.permissions[fingerprint] != perm || time.Now().Before(perm.expiry) {
+		return
+	}
+	delete(a.permissions, fingerprint)
+
+	if a.eventHandler.OnPermissionDeleted != nil {
+		if u, ok := perm.Addr.(*net.UDPAddr); ok {
+			a.eventHandler.OnPermissionDeleted(a.fiveTuple.SrcAddr, a.fiveTuple.DstAddr,
+				a.fiveTuple.Protocol.String(), a.userID, a.realm,
+				a.RelayAddr, u.IP)
+		}
+	}
+}
+
 // ListPermissions returns the permissions associated with an allocation.
 func (a *Allocation) ListPermissions() []*Permission {
 	ps := []*Permission{}
@@ -166,10 +187,22 @@ func (a *Allocation) ListPermissions() []*Permission {
 // AddChannelBind adds a new ChannelBind to the allocation, it also updates the
 // permissions needed for this ChannelBind.
 func (a *Allocation) AddChannelBind(chanBind *ChannelBind, channelLifetime, permissionLifetime time.Duration) error {
+	// Lookup, refresh and insert are one critical section: the expiry of a
+	// binding decides under the same lock.
+	a.channelBindingsLock.Lock()
+	defer a.channelBindingsLock.Unlock()
+
 	// Check that this channel id isn't bound to another transport address, and
 	// that this transport address isn't bound to another channel number.
-	channelByNumber := a.GetChannelByNumber(chanBind.Number)
-	channelByAddr := a.GetChannelByAddr(chanBind.Peer)
+	var channelByNumber, channelByAddr *ChannelBind
+	for _, cb := range a.channelBindings {
+		if channelByNumber == nil && cb.Number == chanBind.Number {
+			channelByNumber = cb
+		}
+		if channelByAddr == nil && ipnet.AddrEqual(cb.Peer, chanBind.Peer) {
+			channelByAddr = cb
+		}
+	}
 
 	// Peer already bound to a different channel number.
 	if channelByAddr != nil && channelByAddr.Number != chanBind.Number {
@@ -183,9 +216,6 @@ func (a *Allocation) AddChannelBind(chanBind *ChannelBind, channelLifetime, perm
 
 	// Add or refresh this channel.
 	if channelByNumber == nil {
-		a.channelBindingsLock.Lock()
-		defer a.channelBindingsLock.Unlock()
-
 		if a.isClosed() {
 			return ErrAllocationClosed
 		}
@@ -232,6 +262,30 @@ func (a *Allocation) RemoveChannelBind(number proto.ChannelNumber) bool {
 	}
 
 	return false
+}
+
+// expireChannelBind removes a binding whose lifetime timer has fired, unless
+// it has been removed or refreshed in the meantime.
+func (a *Allocation) expireChannelBind(chanBind *ChannelBind) {
+	a.channelBindingsLock.Lock()
+	defer a.channelBindingsLock.Unlock()
+
+	for i := len(a.channelBindings) - 1; i >= 0; i-- {
+		if a.channelBindings[i] != chanBind {
+			continue
+		}
+		if time.Now().Before(chanBind.expiry) {
+			return
+		}
+		if a.eventHandler.OnChannelDeleted != nil {
+			a.eventHandler.OnChannelDeleted(a.fiveTuple.SrcAddr, a.fiveTuple.DstAddr,
+				a.fiveTuple.Protocol.String(), a.userID, a.realm,
+				a.RelayAddr, chanBind.Peer, uint16(chanBind.Number))
+		}
+		a.channelBindings = append(a.channelBindings[:i], a.channelBindings[i+1:]...)
+
+		return
+	}
 }
 
 // GetChannelByNumber gets the ChannelBind from this allocation by id.
